@@ -93,12 +93,18 @@ func runC16(c *Ctx) {
 			cut = append(cut, factEdges(follow, cmpFact(vIs(resultOf(w, 0)), token.NEQ, vNil(), ""))...)
 		}
 		// setup failures before the loop (open, header read) are legitimate error exits
+		// (any error-returning call made before the poll loop is entered, i.e. outside every loop)
+		followLoops := naturalLoops(follow)
 		for _, call := range calls(follow) {
-			switch calleeName(call) {
-			case "os.OpenFile", "(*os.File).ReadAt":
-				if e := resultOf(call, 1); e != nil {
-					cut = append(cut, factEdges(follow, cmpFact(vIs(e), token.NEQ, vNil(), ""))...)
-				}
+			if _, isCall := call.(*ssa.Call); !isCall || innermostLoopOf(followLoops, call.Block()) != nil {
+				continue
+			}
+			idx := errResultIndex(call.Common().Signature())
+			if idx < 0 {
+				continue
+			}
+			if e := resultOf(call, idx); e != nil {
+				cut = append(cut, factEdges(follow, cmpFact(vIs(e), token.NEQ, vNil(), ""))...)
 			}
 		}
 		r := reachable(follow, nil, cut)
@@ -154,6 +160,16 @@ func runC16(c *Ctx) {
 				}
 				n++
 				c.requireGuard(rule, fn, Site{st, "currentTXID = info.MaxTXID"}, cmpFact(vIs(resultOf(ap, 0)), token.EQL, vNil(), "applyLTXFile err == nil"))
+			}
+			// the same assignment when the variable lives in SSA form: a phi edge
+			for _, phi := range txidVarPhis(fn, vFieldLoad("FileInfo.MaxTXID", item)) {
+				for i, e := range phi.Edges {
+					if _, isPhi := e.(*ssa.Phi); isPhi || !vFieldLoad("FileInfo.MaxTXID", item)(e) {
+						continue
+					}
+					n++
+					c.requireGuard(rule, fn, Site{lastInstr(phi.Block().Preds[i]), "currentTXID = info.MaxTXID"}, cmpFact(vIs(resultOf(ap, 0)), token.EQL, vNil(), "applyLTXFile err == nil"))
+				}
 			}
 			c.floor(rule, n, 1, "currentTXID advance in "+name)
 		}
@@ -300,21 +316,79 @@ func allStores(fn *ssa.Function) []*ssa.Store {
 // isCurrentTXID: v is a load of the local variable that is assigned
 // info.MaxTXID after an apply (the follower's current TXID).
 func isCurrentTXID(v ssa.Value, ap ssa.CallInstruction) bool {
-	u, ok := v.(*ssa.UnOp)
-	if !ok || u.Op != token.MUL {
-		return false
-	}
-	cell, ok := u.X.(*ssa.Alloc)
-	if !ok {
-		return false
-	}
 	item := vResult(isItem, 0)
-	for _, s := range cellStores(cell) {
-		if vFieldLoad("FileInfo.MaxTXID", item)(s) {
+	maxOf := vFieldLoad("FileInfo.MaxTXID", item)
+	// the variable as a memory cell (captured by a closure or address-taken)
+	if u, ok := v.(*ssa.UnOp); ok && u.Op == token.MUL {
+		if cell, ok := u.X.(*ssa.Alloc); ok {
+			for _, s := range cellStores(cell) {
+				if maxOf(s) {
+					return true
+				}
+			}
+		}
+		return false
+	}
+	// the variable in SSA form: v is one of its phis, or a value assigned to it
+	// (an incoming edge of such a phi)
+	fn := ap.Parent()
+	for _, phi := range txidVarPhis(fn, maxOf) {
+		if v == phi {
 			return true
+		}
+		for _, e := range phi.Edges {
+			if e == v {
+				return true
+			}
 		}
 	}
 	return false
+}
+
+// txidVarPhis: the phis of the SSA variable that receives info.MaxTXID after an
+// apply (all phis connected to one with such an edge).
+func txidVarPhis(fn *ssa.Function, maxOf VM) []*ssa.Phi {
+	var all []*ssa.Phi
+	for _, b := range fn.Blocks {
+		for _, in := range b.Instrs {
+			if phi, ok := in.(*ssa.Phi); ok {
+				all = append(all, phi)
+			}
+		}
+	}
+	in := map[*ssa.Phi]bool{}
+	for _, phi := range all {
+		for _, e := range phi.Edges {
+			if _, isPhi := e.(*ssa.Phi); !isPhi && maxOf(e) {
+				in[phi] = true
+			}
+		}
+	}
+	for changed := true; changed; {
+		changed = false
+		for _, phi := range all {
+			if in[phi] {
+				for _, e := range phi.Edges {
+					if q, ok := e.(*ssa.Phi); ok && !in[q] {
+						in[q], changed = true, true
+					}
+				}
+				continue
+			}
+			for _, e := range phi.Edges {
+				if q, ok := e.(*ssa.Phi); ok && in[q] {
+					in[phi], changed = true, true
+				}
+			}
+		}
+	}
+	var out []*ssa.Phi
+	for _, phi := range all {
+		if in[phi] {
+			out = append(out, phi)
+		}
+	}
+	return out
 }
 
 // c16Resume: writer/reader agreement on the resume bound (F4).
